@@ -668,14 +668,14 @@ impl IntoIter {
     }
 
     pub fn as_slice(&self) -> &[Value] {
-        if let ValueRefInner::Array(array) = self.array.0.as_ref2() {
-            unsafe {
+        match self.array.0.as_ref2() {
+            ValueRefInner::Array(array) => unsafe {
                 let ptr = array.as_ptr();
                 let len = array.len();
                 from_raw_parts(ptr, len)
-            }
-        } else {
-            panic!("Array::as_slice: not an array");
+            },
+            ValueRefInner::EmptyArray => &[],
+            _ => panic!("Array::as_slice: not an array"),
         }
     }
 }
